@@ -145,11 +145,19 @@ NONTRIVIAL = {
 }
 
 
+# rules of Trace_Async.tla that state conformance to the AsyncCore model (how many filter /
+# sort requests are outstanding when, ...) rather than a property: drift, not violations
+DRIFT_RULES = {"C11_PendingMismatch", "C10_CompletedUnknownRequest", "C10_EncodeNotFinished", "C10_ResultDependsOnOrder",
+               "C11_ModelNotMaximal"}
+
+
 def owner(rule):
     return rule.split("_", 1)[0]
 
 
 def owned_by(prop, rule, profile=""):
+    if rule in DRIFT_RULES:
+        return False
     if owner(rule) == prop:
         return True
     return rule in ALSO.get(prop, [])
@@ -192,6 +200,34 @@ def enable_rules(prop):
         vlib.ENABLED_PROPS.add(owner(r))
     if os.environ.get("VERIF_ALL_RULES"):
         vlib.ENABLED_PROPS.update(f"C{i:02d}" for i in range(1, 21))
+
+
+def run_plans_scaled(prop, plans, scale, seed, tag, first_id=40_000_000, jobs=12):
+    """Deepening: the solve / template plans of a property once more at `scale` times their
+    quick size with another seed; returns the TraceResult (the caller merges it)."""
+    exe = vlib.build_harness("release")
+    wd2 = vlib.fresh_dir(os.path.join(vlib.WORK, prop + tag))
+    files2 = []
+    for pi, (plan, nq, nt, variants, wbx) in enumerate(plans):
+        if plan.split(":")[0] not in ("solve", "template"):
+            continue
+        n2 = min(nt, scale * nq)
+        allc = os.path.join(wd2, f"plan{pi}.all")
+        cnt = vlib.gen_cases(exe, allc, plan, n2, seed, variants, whitebox=wbx, first_id=first_id)
+        first_id += cnt
+        files2 += vlib.split_file(allc, max(1, min(2 * jobs, cnt // 100 + 1)), wd2, f"plan{pi}")
+        os.remove(allc)
+    return vlib.run_and_validate(exe, files2, prop + "-deep", jobs=jobs)
+
+
+def merge_results(res, res2):
+    res.fails += res2.fails
+    res.cover.update(res2.cover)
+    res.runs += res2.runs
+    res.states += res2.states
+    res.transitions += res2.transitions
+    res.profiles.update(res2.profiles)
+    return res
 
 
 def trace_check(prop, tier, seed, plans, t0, extra_cov=None, jobs=12, build_profiles=("release",)):
@@ -239,25 +275,9 @@ def trace_check(prop, tier, seed, plans, t0, extra_cov=None, jobs=12, build_prof
         owned_so_far = [f for f in res.fails if owned_by(prop, f["rule"])]
         if tier == "quick" and drift and not owned_so_far and not mc_viol:
             log(f"[{prop}] conformance drift in {drift} replayed runs: deepening the quick run")
-            wd2 = vlib.fresh_dir(os.path.join(vlib.WORK, prop + "_deep"))
-            files2 = []
-            for pi, (plan, nq, nt, variants, wbx) in enumerate(plans):
-                if plan.split(":")[0] not in ("solve", "template"):
-                    continue
-                n2 = min(nt, 6 * nq)
-                allc = os.path.join(wd2, f"plan{pi}.all")
-                cnt = vlib.gen_cases(exe, allc, plan, n2, seed + 7919, variants, whitebox=wbx, first_id=first_id)
-                first_id += cnt
-                total_cases += cnt
-                files2 += vlib.split_file(allc, max(1, min(2 * jobs, cnt // 100 + 1)), wd2, f"plan{pi}")
-                os.remove(allc)
-            res2 = vlib.run_and_validate(exe, files2, prop + "-deep", jobs=jobs)
-            res.fails += res2.fails
-            res.cover.update(res2.cover)
-            res.runs += res2.runs
-            res.states += res2.states
-            res.transitions += res2.transitions
-            res.profiles.update(res2.profiles)
+            res2 = run_plans_scaled(prop, plans, 6, seed + 7919, "_deep", first_id=first_id, jobs=jobs)
+            total_cases += res2.runs
+            merge_results(res, res2)
             mc_info["deepened_after_conformance_drift"] = {"drifting_runs": drift, "extra_runs": res2.runs}
     for bp, other in list(zip(build_profiles, exes))[1:]:
         # the same cases again in another build profile (debug assertions on)
